@@ -5,7 +5,7 @@ from fractions import Fraction
 
 from .. import extract, tab
 from ..flow import Engine, Client, tri_eval
-from ..front import (AnalysisError, dotted, fname, is_self_attr, src, walk_no_nested, const_value, qualname_of,
+from ..front import (ancestors, AnalysisError, dotted, fname, is_self_attr, src, walk_no_nested, const_value, qualname_of,
                      enclosing_function)
 from ..sym import Canon, Poly, inline_locals, bool_atoms, truth_table
 
@@ -37,6 +37,7 @@ def run(repo, run, tier):
     # every return site of nonlinear_roots must put the residual norm there (a step norm can be tiny while the stage equations are far from solved)
     from .c15 import slots
     slots(repo, run, rule_id="C02.7")
+    current_integrator_is_called(repo, run)
 
 
 # ------------------------------------------------------------------------------------------------
@@ -873,3 +874,25 @@ def stage_tolerance(repo, run, rule_id="C02.6"):
         if not ok:
             run.report(rule_id, ITY, node, "the %s of the implicit stage equations is %s, not k*(atol + rtol*|y|): the stages are solved (and accepted) to a tolerance in which "
                                            "atol and rtol do not play their roles (e.g. exchanged: a loose rtol becomes the absolute tolerance)" % (what, p.canon()))
+
+
+# ------------------------------------------------------------------------------------------------
+def current_integrator_is_called(repo, run):
+    """'one step equals the update defined by THAT method's coefficients' (and, for splitting methods, by the kick mask in force): every recorded step is taken by the
+    integrator the system holds when the step starts.  Setting the method, the tolerances or the kick variables -- all legal from a step callback -- REPLACES
+    self.integrator; a reference bound before the step loop keeps stepping with the replaced object while `system.method` / `system.integrator` report the new one."""
+    from ..imodel import IntegrateModel, DS
+    rid = run.rule("C02.8", "integrate() calls the integrator through `self.integrator` read at the call (or through a local bound inside the same iteration): no reference to the "
+                            "integrator is bound outside the step loop and called inside it", floor=1)
+    m = IntegrateModel(repo, allow_alias=True)
+    run.analysed_fn(DS, m.fn)
+    if m.integrator_alias is None:
+        run.judged(rid, "the step loop calls `%s`" % src(m.step_assign.value.func)[:40])
+        return
+    name, bind = m.integrator_alias
+    inside = any(a is m.loop for a in ancestors(bind))
+    run.judged(rid, "the step loop calls `%s`, bound by `%s` %s the loop" % (name, src(bind)[:60], "inside" if inside else "OUTSIDE"), ok=inside)
+    if not inside:
+        run.report("C02.8", DS, bind, "the step loop calls `%s`, a reference to the integrator bound once before the loop (`%s`): when a step callback sets the method, the tolerances "
+                   "or the kick variables, self.integrator is REPLACED, and every later step of this run is still taken by the old object -- the recorded steps are the update of "
+                   "another method's coefficients (or of another kick mask) than the one the system reports" % (name, src(bind)[:60]))
